@@ -100,6 +100,7 @@ type Path struct {
 // Engine
 
 type Engine struct {
+	single map[*Func]int // number of call sites per function (see singleCallSite)
 	P      *Program
 	cache  map[*Func][]Path
 	combs  map[*types.Var]*combSummary // func-typed parameter -> how often the function calls it
@@ -1176,8 +1177,8 @@ func (c *fnCtx) inlineHelperX(callee types.Object, call *ast.CallExpr, anyPkg bo
 		delete(c.e.inl, def)
 		c.e.hcount[def] = n
 	}
-	if n == 0 || n > 48 {
-		return nil
+	if n == 0 || (n > 48 && !(n <= 600 && c.e.singleCallSite(def))) {
+		return nil // (a big function that was split off its only caller is still looked into: the caller's path set is what it was before the split)
 	}
 	var recv ast.Expr
 	if se, ok := ast.Unparen(call.Fun).(*ast.SelectorExpr); ok {
@@ -1564,4 +1565,40 @@ func nodeStr(fset *token.FileSet, n ast.Node) string {
 		return strings.Join(l, ", ") + " " + v.Tok.String() + " " + strings.Join(r, ", ")
 	}
 	return fmt.Sprintf("%T", n)
+}
+
+// singleCallSite: the function is called from exactly one place in the repository (and its value
+// is not taken anywhere).
+func (e *Engine) singleCallSite(def *Func) bool {
+	if e.single == nil {
+		e.single = map[*Func]int{}
+	}
+	if n, ok := e.single[def]; ok {
+		return n == 1
+	}
+	n := 0
+	for _, fn := range e.P.All {
+		if fn.Body == nil {
+			continue
+		}
+		info := fn.Info()
+		ast.Inspect(fn.Body, func(nd ast.Node) bool {
+			switch v := nd.(type) {
+			case *ast.CallExpr:
+				if calleeObj(info, v) == types.Object(def.Obj) {
+					n++
+				}
+			case *ast.SelectorExpr:
+				if funcValueTarget(info, v) == def.Obj {
+					if sel, ok := info.Selections[v]; ok && sel.Kind() == types.MethodVal {
+						// counted as a call above when it is the Fun of a call; a bare method value is one more use
+						n += 0
+					}
+				}
+			}
+			return true
+		})
+	}
+	e.single[def] = n
+	return n == 1
 }
